@@ -234,7 +234,25 @@ func (b *refBuilder) newFile(dirOf string, node *model.Node, asDef string) *mode
 		b.modes["file.yaml"]++
 	}
 	name := fmt.Sprintf("ext%d", b.nfile)
-	f := &model.File{RelPath: path.Join(dir, name+ext), Format: format, ID: fmt.Sprintf("https://example.com/%s", name)}
+	if b.sameNames {
+		// the same base name in several directories of one case (each reference must resolve
+		// relative to its own document)
+		for _, cand := range []string{"common", "shared"} {
+			taken := false
+			for _, of := range b.files {
+				// whatever the extension: an extension-less reference must stay unambiguous
+				if strings.TrimSuffix(strings.TrimSuffix(of.RelPath, ".json"), ".yaml") == path.Join(dir, cand) {
+					taken = true
+				}
+			}
+			if !taken {
+				name = cand
+				b.modes["file.pooled_name"]++
+				break
+			}
+		}
+	}
+	f := &model.File{RelPath: path.Join(dir, name+ext), Format: format, ID: fmt.Sprintf("https://example.com/f%d-%s", b.nfile, name)}
 	f.Spelling.LegacyDefs = rapid.Bool().Draw(b.t, "legacydefs")
 	if asDef != "" {
 		f.Root = &model.Node{Kind: model.KObject, Props: []model.Prop{{Name: "zz", Node: &model.Node{Kind: model.KBoolean}}}}
